@@ -42,6 +42,7 @@ type jMethodInfo struct {
 type jTy struct {
 	Kind         string        `json:"kind"`
 	Str          string        `json:"str"`
+	QStr         string        `json:"qstr"` // types.TypeString with every package qualifier written as \x01<path>\x02
 	Name         string        `json:"name"`
 	PkgPath      *string       `json:"pkgPath"`
 	PkgName      string        `json:"pkgName"`
@@ -490,6 +491,7 @@ func ExtractFacts(srcPath, dstPath, rel string) (*Facts, error) {
 	}
 	describe := func(t types.Type) jTy {
 		j := jTy{Str: t.String(), Fields: []jField{}, Methods: []jMethodInfo{}, StringLookup: jLookup{K: "none"}}
+		j.QStr = types.TypeString(t, func(p *types.Package) string { return "\x01" + p.Path() + "\x02" })
 		switch x := t.(type) {
 		case *types.Basic:
 			j.Kind = "basic"
